@@ -10,9 +10,13 @@
    Keys are naturals; the key map is an association list kept in key order (Go's map iteration order is
    unobservable: every per-key effect is independent).  Records are never reused: ResetRoutine and a re-added key
    construct a new record.  A LINEAGE ([rlin], [ilin]) is the chain of records a key has between being added and
-   being removed (ResetRoutine keeps the lineage).  Root contexts are numbers (0 = nil) and are never cancelled
-   from outside while installed (recorded assumption); the context of an instance is identified with the instance,
-   its cancellation is the flag [icanc]; the exited channel of instance i is identified with i, [iexit] = closed.
+   being removed (ResetRoutine keeps the lineage).  Root contexts are numbers (0 = nil); their owner may cancel them
+   at any time (event [ECancelRoot], the set [croots]): the context of an instance is identified with the instance,
+   it is a context.WithCancel child of the root that was passed to start ([iroot]), so it is born cancelled under a
+   cancelled root and is cancelled synchronously with its root; its cancellation is the flag [icanc].  The container
+   treats a cancelled root as absent at the next SyncKeys / ResetRoutine / RestartRoutine call ([norm_ctx]) - and only
+   there: SetKey, SetContext and the retry callback use it as it is.  The exited channel of instance i is identified
+   with i, [iexit] = closed.
    The constructor callback returns data = key * 1000 + (number of constructions of that key).
    No proofs in this file. *)
 From Util Require Import Common.Base Common.ListLemmas.
@@ -53,11 +57,12 @@ Record st := {
   cblog : list (nat * N * outcome);(* exit callback invocations (key, data, error), oldest first *)
   refs : list ref;
   rels : list relc;
+  croots : list nat;                (* root contexts their owner has cancelled *)
 }.
 
 Definition init (dl : N) (sc : option (list N)) : st :=
   {| kctx := 0; kmap := []; delay := dl; script := sc; nlin := 0; ctors := []; recs := []; insts := []; timers := [];
-     clock := 0%N; cblog := []; refs := []; rels := [] |}.
+     clock := 0%N; cblog := []; refs := []; rels := []; croots := [] |}.
 
 (* ---------- association lists ---------- *)
 Fixpoint lookup {A} (m : list (nat * A)) (k : nat) : option A :=
@@ -82,37 +87,41 @@ Definition mem (k : nat) (l : list nat) : bool := existsb (Nat.eqb k) l.
 (* ---------- setters ---------- *)
 Definition set_kctx (s : st) (x : nat) : st :=
   {| kctx := x; kmap := kmap s; delay := delay s; script := script s; nlin := nlin s; ctors := ctors s; recs := recs s;
-     insts := insts s; timers := timers s; clock := clock s; cblog := cblog s; refs := refs s; rels := rels s |}.
+     insts := insts s; timers := timers s; clock := clock s; cblog := cblog s; refs := refs s; rels := rels s; croots := croots s |}.
 Definition set_kmap (s : st) (x : list (nat * nat)) : st :=
   {| kctx := kctx s; kmap := x; delay := delay s; script := script s; nlin := nlin s; ctors := ctors s; recs := recs s;
-     insts := insts s; timers := timers s; clock := clock s; cblog := cblog s; refs := refs s; rels := rels s |}.
+     insts := insts s; timers := timers s; clock := clock s; cblog := cblog s; refs := refs s; rels := rels s; croots := croots s |}.
 Definition set_nlin (s : st) (x : nat) : st :=
   {| kctx := kctx s; kmap := kmap s; delay := delay s; script := script s; nlin := x; ctors := ctors s; recs := recs s;
-     insts := insts s; timers := timers s; clock := clock s; cblog := cblog s; refs := refs s; rels := rels s |}.
+     insts := insts s; timers := timers s; clock := clock s; cblog := cblog s; refs := refs s; rels := rels s; croots := croots s |}.
 Definition set_ctors (s : st) (x : list (nat * nat)) : st :=
   {| kctx := kctx s; kmap := kmap s; delay := delay s; script := script s; nlin := nlin s; ctors := x; recs := recs s;
-     insts := insts s; timers := timers s; clock := clock s; cblog := cblog s; refs := refs s; rels := rels s |}.
+     insts := insts s; timers := timers s; clock := clock s; cblog := cblog s; refs := refs s; rels := rels s; croots := croots s |}.
 Definition set_recs (s : st) (x : list rec) : st :=
   {| kctx := kctx s; kmap := kmap s; delay := delay s; script := script s; nlin := nlin s; ctors := ctors s; recs := x;
-     insts := insts s; timers := timers s; clock := clock s; cblog := cblog s; refs := refs s; rels := rels s |}.
+     insts := insts s; timers := timers s; clock := clock s; cblog := cblog s; refs := refs s; rels := rels s; croots := croots s |}.
 Definition set_insts (s : st) (x : list inst) : st :=
   {| kctx := kctx s; kmap := kmap s; delay := delay s; script := script s; nlin := nlin s; ctors := ctors s; recs := recs s;
-     insts := x; timers := timers s; clock := clock s; cblog := cblog s; refs := refs s; rels := rels s |}.
+     insts := x; timers := timers s; clock := clock s; cblog := cblog s; refs := refs s; rels := rels s; croots := croots s |}.
 Definition set_timers (s : st) (x : list timer) : st :=
   {| kctx := kctx s; kmap := kmap s; delay := delay s; script := script s; nlin := nlin s; ctors := ctors s; recs := recs s;
-     insts := insts s; timers := x; clock := clock s; cblog := cblog s; refs := refs s; rels := rels s |}.
+     insts := insts s; timers := x; clock := clock s; cblog := cblog s; refs := refs s; rels := rels s; croots := croots s |}.
 Definition set_clock (s : st) (x : N) : st :=
   {| kctx := kctx s; kmap := kmap s; delay := delay s; script := script s; nlin := nlin s; ctors := ctors s; recs := recs s;
-     insts := insts s; timers := timers s; clock := x; cblog := cblog s; refs := refs s; rels := rels s |}.
+     insts := insts s; timers := timers s; clock := x; cblog := cblog s; refs := refs s; rels := rels s; croots := croots s |}.
 Definition set_cblog (s : st) (x : list (nat * N * outcome)) : st :=
   {| kctx := kctx s; kmap := kmap s; delay := delay s; script := script s; nlin := nlin s; ctors := ctors s; recs := recs s;
-     insts := insts s; timers := timers s; clock := clock s; cblog := x; refs := refs s; rels := rels s |}.
+     insts := insts s; timers := timers s; clock := clock s; cblog := x; refs := refs s; rels := rels s; croots := croots s |}.
 Definition set_refs (s : st) (x : list ref) : st :=
   {| kctx := kctx s; kmap := kmap s; delay := delay s; script := script s; nlin := nlin s; ctors := ctors s; recs := recs s;
-     insts := insts s; timers := timers s; clock := clock s; cblog := cblog s; refs := x; rels := rels s |}.
+     insts := insts s; timers := timers s; clock := clock s; cblog := cblog s; refs := x; rels := rels s; croots := croots s |}.
 Definition set_rels (s : st) (x : list relc) : st :=
   {| kctx := kctx s; kmap := kmap s; delay := delay s; script := script s; nlin := nlin s; ctors := ctors s; recs := recs s;
-     insts := insts s; timers := timers s; clock := clock s; cblog := cblog s; refs := refs s; rels := x |}.
+     insts := insts s; timers := timers s; clock := clock s; cblog := cblog s; refs := refs s; rels := x; croots := croots s |}.
+
+Definition set_croots (s : st) (x : list nat) : st :=
+  {| kctx := kctx s; kmap := kmap s; delay := delay s; script := script s; nlin := nlin s; ctors := ctors s; recs := recs s;
+     insts := insts s; timers := timers s; clock := clock s; cblog := cblog s; refs := refs s; rels := rels s; croots := x |}.
 
 Definition rec0 : rec := {| rkey := 0; rlin := 0; rdata := 0%N; rctx := None; rcancel := None; rexit := None; rerr := ONil;
                             rsucc := false; rexited := false; rremove := None; rretry := None; rbo := 0 |}.
@@ -186,6 +195,9 @@ Definition stop_timer (s : st) (ot : option nat) : st :=
   | None => s
   end.
 
+(* ctx.Err() != nil of root context c *)
+Definition root_canc (s : st) (c : nat) : bool := existsb (Nat.eqb c) (croots s).
+
 Definition ctx_live (s : st) (oi : option nat) : bool :=
   match oi with Some i => negb (icanc (geti s i)) | None => false end.
 Definition is_some {A} (o : option A) : bool := match o with Some _ => true | None => false end.
@@ -200,7 +212,7 @@ Definition start_rec (s : st) (r : nat) (ctx : nat) (waitCh : option nat) (force
     let s2 := cancel_inst s1 (rcancel x) in
     let n := length (insts s2) in
     let s3 := set_insts s2 (insts s2 ++ [{| irec := r; ikey := rkey x; ilin := rlin x; iwait := waitCh; ipcv := IGate0;
-                                            icanc := false; iexit := false; idata := rdata x; iroot := ctx |}]) in
+                                            icanc := root_canc s ctx; iexit := false; idata := rdata x; iroot := ctx |}]) in
     setr s3 r (with_started x n).
 
 (* ctorCb(key) and newRunningRoutine: a fresh record for key k in lineage lin, registered in the map; w is the exit
@@ -254,6 +266,8 @@ Definition unretry (s : st) (r : nat) : st :=
 
 (* ---------- API sections ---------- *)
 Definition has_ctx (s : st) : bool := negb (Nat.eqb (kctx s) 0).
+(* `if k.ctx != nil && k.ctx.Err() != nil { k.ctx = nil }` at the top of SyncKeys, resetRoutineLocked, restartRoutineLocked *)
+Definition norm_ctx (s : st) : st := if root_canc s (kctx s) then set_kctx s 0 else s.
 
 (* SetKey(key, start) -> (data, existed) *)
 Definition set_key (fx : fixes) (s : st) (k : nat) (start : bool) : st * (N * bool) :=
@@ -297,10 +311,12 @@ Definition sync_one (fx : fixes) (restart : bool) (acc : st * list nat * list na
 Definition sync_rm (keys : list nat) (acc : st * list nat) (k : nat) : st * list nat :=
   let '(s, removed) := acc in
   if mem k keys then acc else (fst (remove_key s k), removed ++ [k]).
-Definition sync_keys (fx : fixes) (s : st) (keys : list nat) (restart : bool) : st * (list nat * list nat) :=
+Definition sync_core (fx : fixes) (s : st) (keys : list nat) (restart : bool) : st * (list nat * list nat) :=
   let '(s1, _, added) := fold_left (sync_one fx restart) keys (s, [], []) in
   let '(s2, removed) := fold_left (sync_rm keys) (map fst (kmap s1)) (s1, []) in
   (s2, (added, removed)).
+Definition sync_keys (fx : fixes) (s : st) (keys : list nat) (restart : bool) : st * (list nat * list nat) :=
+  sync_core fx (norm_ctx s) keys restart.
 
 Definition get_key (s : st) (k : nat) : N * bool :=
   match lookup (kmap s) k with Some r => (rdata (getr s r), true) | None => (0%N, false) end.
@@ -330,7 +346,7 @@ Definition cond_match (cond k : nat) : bool :=
   match cond with 0 => true | 1 => false | _ => Nat.odd k end.
 
 (* resetRoutineLocked -> (existed, reset) *)
-Definition reset_routine (fx : fixes) (s : st) (k cond : nat) : st * (bool * bool) :=
+Definition reset_core (fx : fixes) (s : st) (k cond : nat) : st * (bool * bool) :=
   match lookup (kmap s) k with
   | None => (s, (false, false))
   | Some r =>
@@ -346,9 +362,10 @@ Definition reset_routine (fx : fixes) (s : st) (k cond : nat) : st * (bool * boo
       let s3 := if has_ctx s2 then start_rec s2 r2 (kctx s2) prev false else s2 in
       (s3, (true, true))
   end.
+Definition reset_routine (fx : fixes) (s : st) (k cond : nat) : st * (bool * bool) := reset_core fx (norm_ctx s) k cond.
 
 (* restartRoutineLocked -> (existed, reset) *)
-Definition restart_routine (s : st) (k cond : nat) : st * (bool * bool) :=
+Definition restart_core (s : st) (k cond : nat) : st * (bool * bool) :=
   match lookup (kmap s) k with
   | None => (s, (false, false))
   | Some r =>
@@ -360,6 +377,7 @@ Definition restart_routine (s : st) (k cond : nat) : st * (bool * bool) :=
       let s2 := setr s1 r (with_cancel x None) in
       (start_rec s2 r (kctx s2) (rexit x) true, (true, true))
   end.
+Definition restart_routine (s : st) (k cond : nat) : st * (bool * bool) := restart_core (norm_ctx s) k cond.
 
 Definition all_step (f : st -> nat -> nat -> st * (bool * bool)) (cond : nat) (acc : st * nat) (k : nat) : st * nat :=
   let '(s, n) := acc in
@@ -529,6 +547,13 @@ Definition timer_cb (fx : fixes) (s : st) (t : nat) : st :=
   | None => s
   end.
 
+(* ---------- the environment ---------- *)
+(* the owner of root context c calls its cancel function: the root and, synchronously, every context derived from it
+   (context.WithCancel children: the instances started under it) are cancelled.  The container is not told. *)
+Definition cancel_root (s : st) (c : nat) : st :=
+  if Nat.eqb c 0 then s
+  else set_croots (set_insts s (map (fun x => if Nat.eqb (iroot x) c then with_canc x else x) (insts s))) (c :: croots s).
+
 (* ---------- events ---------- *)
 Inductive ev :=
 | ESetCtx (c : nat) (restart : bool)
@@ -549,7 +574,8 @@ Inductive ev :=
 | EReturn (i : nat) (o : outcome)
 | EBook (i : nat)
 | EAdvance (d : N)
-| ETimerCb (t : nat).
+| ETimerCb (t : nat)
+| ECancelRoot (c : nat).
 
 Definition step (fx : fixes) (s : st) (e : ev) : st :=
   match e with
@@ -572,6 +598,7 @@ Definition step (fx : fixes) (s : st) (e : ev) : st :=
   | EBook i => bookkeep s i
   | EAdvance d => advance s d
   | ETimerCb t => timer_cb fx s t
+  | ECancelRoot c => cancel_root s c
   end.
 
 Definition run (fx : fixes) (s0 : st) (es : list ev) : st := fold_left (step fx) es s0.
